@@ -104,6 +104,16 @@ class PolarsContainerValidate(Contract):
             def pyvc_iter(self, I_=None):
                 return []
 
+            def pyvc_len(self):
+                # the number of columns of THAT frame (one unknown number per frame)
+                if getattr(self.of, "n_columns", None) is None:
+                    try:
+                        self.of.n_columns = core.sym_int("n_columns")
+                        cur().assume(self.of.n_columns >= 0)
+                    except AttributeError:
+                        raise core.Unsupported("number of columns of an unmodelled frame")
+                return self.of.n_columns
+
             def pyvc_contains(self, I_, x):
                 return SAny(name="in_frame").truth() if hasattr(SAny, "truth") else False
 
@@ -391,6 +401,42 @@ class PolarsContainerValidate(Contract):
                 rep, offered, failing = self._report_posts(schema, parsed)
                 out.update(rep)
         return out
+
+
+def _parsed_frame_replay(self, rec):
+    def thunk():
+        """the components are chosen by the columns of the PARSED frame: a column that add_missing_columns has just added is validated,
+        also when strict='filter' removes as many columns as were added (the number of columns is then unchanged) - as on pandas"""
+        import warnings
+
+        import pandas as pd
+        import polars as pl
+        import pandera as pa
+        import pandera.polars as pp
+
+        warnings.simplefilter("ignore")
+        obs, bad = {}, False
+        data = {"a": [1, 2], "z": [7, 8]}
+        verdicts = {}
+        for lib, mod, mk in (("pandas", pa, pd.DataFrame), ("polars", pp, pl.DataFrame)):
+            schema = mod.DataFrameSchema({"a": mod.Column(int), "b": mod.Column(int, pa.Check.gt(5), unique=True, default=0)}, add_missing_columns=True, strict="filter")
+            for lazy in (False, True):
+                try:
+                    schema.validate(mk(data), lazy=lazy)
+                    verdicts[f"{lib}, lazy={lazy}"] = "accepted"
+                except (pa.errors.SchemaError, pa.errors.SchemaErrors):
+                    verdicts[f"{lib}, lazy={lazy}"] = "rejected"
+                except Exception as e:  # noqa: BLE001
+                    verdicts[f"{lib}, lazy={lazy}"] = "leaked " + type(e).__name__
+        if set(verdicts.values()) != {"rejected"}:
+            bad = True
+            obs["added column b (default 0, Check.gt(5), unique) while strict='filter' drops the extra column z: every run must reject"] = verdicts
+        return bad, obs or "a column added by add_missing_columns is validated whatever strict='filter' removes"
+
+    return thunk
+
+
+PolarsContainerValidate.concretize = _parsed_frame_replay
 
 
 class PolarsParserStageRespectsDepth(PolarsContainerValidate):
